@@ -246,7 +246,7 @@ def run_case(case, ctx):
         fs = f.get("fs") or int(rng.choice([1, 3, 5]))
         params = {"filter_method": "median_for_intervals", "filter_size": fs,
                   "interval_indicator": ["", "b"][int(rng.integers(0, 2))]}
-        if rng.random() < 0.6:
+        if rng.random() < 0.6 or f.get("method") == "median_for_intervals":
             params.update({"regularization": True, "ambiguity_indicator": "", "ambiguity_threshold": float(rng.choice([0.3, 0.6, 0.9])),
                            "ambiguity_kernel_size": int(rng.choice([1, 3, 5])), "vertical_depth": int(rng.choice([0, 1, 2])),
                            "quantile_regularization": float(rng.choice([0.8, 1.0]))})
